@@ -26,3 +26,9 @@ pub mod c33;
 pub mod c38;
 pub mod c36;
 pub mod c34;
+pub mod c13;
+pub mod c25;
+pub mod c09;
+pub mod c08;
+pub mod c40;
+pub mod c41;
